@@ -61,8 +61,8 @@ PLANS = {
             enum_iter("asan", 4, 5, False, random=100, tiers=("quick",)), enum_iter("asan", 12, 8, False, random=2000, tiers=("thorough",)),
             enum_iter("miri", 16, 2, False, extra=2, bare=True, tiers=("quick",)), enum_iter("miri", 16, 4, False, extra=2, bare=True, tiers=("thorough",)),
             hist("order", 2, 480000, 3000000)],
-    "C13": [job("bigcap", "native", 2, [], budget={"quick": 300000, "thorough": 3000000}, budget_arg="max-n"), hist("big", 1, 40000, 300000), job("churn", "native", 4, [], budget={"quick": 1000000, "thorough": 25000000}, budget_arg="ops"), job("interleave", "native", 2, [], budget={"quick": 200000, "thorough": 3000000}), hist("capacity", 14, 480000, 7500000), hist("realloc", 2, 480000, 3000000)],
-    "C14": [hist("big", 1, 40000, 300000), hist("realloc", 1, 480000, 3000000), job("interleave", "native", 2, [], budget={"quick": 200000, "thorough": 3000000}), hist("clone", 12, 480000, 7500000), hist("mixed", 2, 480000, 3000000),
+    "C13": [job("bigcap", "native", 2, [], budget={"quick": 300000, "thorough": 3000000}, budget_arg="max-n"), hist("big", 1, 40000, 300000), job("churn", "native", 4, [], budget={"quick": 1000000, "thorough": 25000000}, budget_arg="ops"), job("interleave", "native", 2, [], budget={"quick": 200000, "thorough": 3000000}), hist("capacity", 14, 480000, 7500000, reports_to=("C13",)), hist("realloc", 2, 480000, 3000000)],
+    "C14": [job("bigcap", "native", 1, [], budget={"quick": 300000, "thorough": 3000000}, budget_arg="max-n"), hist("big", 1, 40000, 300000), hist("realloc", 1, 480000, 3000000), job("interleave", "native", 2, [], budget={"quick": 200000, "thorough": 3000000}), hist("clone", 12, 480000, 7500000), hist("mixed", 2, 480000, 3000000),
             hist("clone", 6, 100000, 2000000, mode="asan", reports_to=MEM),
             hist("clone", 16, 300, 4000, mode="miri", reports_to=MEM, extra=["--bare", "1"])],
     "C15": [hist("big", 1, 40000, 300000), hist("realloc", 1, 480000, 3000000), enum_retain("native", 8, 9, random=300, tiers=("quick",)), enum_retain("native", 16, 12, random=4000, tiers=("thorough",)),
@@ -74,7 +74,7 @@ PLANS = {
     "C17": [enum_iter("native", 8, 6, True, random=300, extra=1, tiers=("quick",)), enum_iter("native", 16, 9, True, random=3000, extra=1, tiers=("thorough",)),
             enum_iter("asan", 4, 5, True, extra=1, tiers=("quick",), asan_options=ASAN_NOLEAK), enum_iter("asan", 12, 7, True, extra=1, random=1000, tiers=("thorough",), asan_options=ASAN_NOLEAK),
             enum_iter("miri", 16, 2, True, extra=1, bare=True, tiers=("quick",), miri_flags=LEAK_OK_MIRI), enum_iter("miri", 16, 4, True, extra=1, bare=True, tiers=("thorough",), miri_flags=LEAK_OK_MIRI)],
-    "C18": [job("autotraits", "native", 1, []),
+    "C18": [job("autotraits", "native", 1, []), job("exercise", "native", 1, [], bin="lruverif_c18", compile_verdict=True),
             job("sharedref_threads", "native", 2, ["--threads", "4"], budget={"quick": 40, "thorough": 2000}, budget_arg="states", reports_to=("C18", "C19")),
             job("sharedref_threads", "miri", 4, ["--threads", "3"], budget={"quick": 2, "thorough": 30}, budget_arg="states", reports_to=("C18", "C19"))],
     "C19": [job("sharedref", "native", 16, ["--threads", "4"], budget={"quick": 400, "thorough": 6000}, budget_arg="states", reports_to=("C19",)),
@@ -110,11 +110,11 @@ FLOORS = {
     "C16": {"evaluations": {"quick": 200000, "thorough": 5000000}, "distinct": 1000, "each:c16_fired_": 20, "c16_hash_panic_in_explicit_rebuild": 1000, "c16_hash_panic_in_growing_insert": 300,
             "c16_further_use_ops": 100000, "c16_dropped_after": 100000},
     "C17": {"evaluations": {"quick": 10000, "thorough": 100000}, "distinct": 2000, "sum:c17_forgot_": 2000, "c17_forgot_drain": 300, "c17_further_use_ops": 2000, "c17_caches_dropped_after_forget": 1000},
-    "C18": {"evaluations": 128, "distinct": 128, "c18_table_rows": 64, "c18_rows_expected_send": 8, "c18_rows_expected_not_send": 56, "c18_moved_across_threads": 20},
+    "C18": {"evaluations": 128, "distinct": 128, "c18_table_rows": 64, "c18_rows_expected_send": 8, "c18_rows_expected_not_send": 56, "c18_moved_across_threads": 20, "c18_nonstatic_exercise_runs": 1},
     "C19": {"evaluations": {"quick": 5000, "thorough": 80000}, "distinct": 100, "c19_shared_ops_under_write_trap": 500000, "c19_thread_runs_under_write_trap": 10000, "c19_state_empty": 50, "c19_state_single": 50,
             "c19_state_tombstoned": 50, "c19_state_const_hasher": 200, "c19_thread_runs_race_detector": 20, "max:c19_max_len": 30},
     "C20": {"evaluations": {"quick": 300000, "thorough": 10000000}, "distinct": 150, "c20_rebuilds": 2000, "c20_with_departures": 5000, "c20_scale_ops_n16384": 5000, "c20_scale_ops_n1024": 5000, "c20_scale_rebuilds": 500},
-    "C08": {"evaluations": {"quick": 500000, "thorough": 20000000}, "distinct": 3000, "c08_bulk_shapes_checked": 100000, "c08_totality_cases_debug0": 36, "c08_totality_cases_native": 18},
+    "C08": {"evaluations": {"quick": 500000, "thorough": 20000000}, "distinct": 3000, "c08_bulk_shapes_checked": 100000, "c08_totality_cases_debug0": 36, "c08_totality_cases_native": 18, "c08_measured_while_locked_elsewhere": 10, "c08_values_with_user_defined_leaves": 10000},
     "C09": {"evaluations": {"quick": 100000, "thorough": 4000000}, "distinct": 400, "c09_exact_values": 80000, "c09_bounded_values": 5000, "c09_values_holding_memory": 50000},
     "C10": {"evaluations": {"quick": 100000, "thorough": 3000000}, "distinct": 40, "each:c10_": 100},
     "C11": {"evaluations": {"quick": 100000, "thorough": 3000000}, "distinct": 30, "each:c11_class": 10},
@@ -129,15 +129,15 @@ RULES = {
     "C06": "Identity-level drop ledger: every key/value object has a unique id; after every event 'objects alive == objects in the caches + objects handed back' and no id is ever dropped twice; histories end by drop, clear, drain, into_iter/into_keys/into_values consumed from either end for any number of steps; plus every next/next_back string on owning iterators for small lengths; plus the same exactly-once ledger over type configurations that differ in drop glue (LruCache<TKey,u64>, <u32,TVal>, <TKey,&str>, <TKey,TVal>) with every way of ending; the same workloads under AddressSanitizer+LeakSanitizer and Miri (leak check on). distinct = (operation kind, #drops class, #handed back, #caches, outcome).",
     "C07": "Observation gate after every event: hook walk forward == reverse(backward), == len(), node set == occupied buckets, link symmetry (G1); iter/rev/keys/values/peek_lru/peek_mru == walk (G2); contains/peek/peek_entry of every id (both key forms) find exactly the walked node (G3); returned references point into the walked nodes. Reallocation-heavy histories natively, under ASan (caches to thousands of entries) and under Miri. distinct = (operation kind, length class, reallocated?, hasher, post length class).",
     "C12": "Exhaustive enumeration: for each of the 7 iterator kinds, every cache length 0..=N and EVERY string over {next, next_back} of length <= len+3 (calls past exhaustion and drop-after-prefix included), on caches whose list order differs from bucket order, followed by further use of the cache; plus random strings on lists up to 60. Yields compared with the spec computed from the observed pre-state; drain aftermath; ledger for unconsumed entries. distinct = (kind, length, #calls, #backs, call-string bits).",
-    "C13": "Histories with capacity operations anywhere (arguments 0, small, len, capacity+-1, usize::MAX, usize::MAX-len), allocator refusal injected into try_reserve, automatic growth compared with the capacity a fresh with_capacity(2*len) table gets from the library itself, with_capacity(n) promise (also for n up to 3*10^5 quick / 3*10^6 thorough in a dedicated run with reserve/shrink at that scale), growth bound tracked per history, constant-length churn of 10^6-10^8 operations. distinct = (operation, rebuilt?, length class, argument class, outcome).",
+    "C13": "Histories with capacity operations anywhere (arguments 0, small, len, capacity+-1, usize::MAX, usize::MAX-len), allocator refusal injected into try_reserve at its 1st..3rd allocation (a refusal the library does not handle aborts the process: reported through the process status and the marker of the call), automatic growth compared with the capacity a fresh with_capacity(2*len) table gets from the library itself, with_capacity(n) promise (also for n up to 3*10^5 quick / 3*10^6 thorough in a dedicated run with reserve/shrink at that scale), growth bound tracked per history, constant-length churn of 10^6-10^8 operations. distinct = (operation, rebuilt?, length class, argument class, outcome).",
     "C14": "Clone checked against its source right after clone() (ids, order, recorded sizes, scalars, capacity, disjoint object ids and node addresses, source fingerprint unchanged); afterwards every operation on any cache must leave every sibling cache's observation and structural fingerprint unchanged; `clone_from` between clones and independently constructed caches (own hasher instance, other limit and capacity) must make the target equal to the source in the same sense. Also under ASan and Miri (shared ownership would be a double free). distinct = (length class, hasher, tombstones?, ...) and (operation, sibling length).",
     "C15": "Exhaustive enumeration of all 2^n reject-subsets (by recency position) for n <= N on caches with shuffled recency order, tombstones and a reallocation; predicate call log must equal the pre-order with the stored addresses; survivors, len/current_size, ledger of rejected objects. Plus patterned/random predicates on lists up to 60 and retain inside random histories. distinct = (length class, subset shape, #rejected class, hasher).",
     "C16": "Fault enumeration: small cache states built by random histories (0-14 events, universe 3-8, all hashers, incl. table exactly full and cache full); for each state ~40 operations covering the whole mutating and cloning API; a counting run yields the number of user callbacks per class (hash, eq, clone, key size, value size, mutate closure, retain predicate); then for EVERY class and EVERY index n the state is rebuilt by replay, the n-th callback panics, and the monitor checks: hook walk both ways mirrors / == len() / node set == buckets, public traversals and lookups agree, current_size == sum of recorded sizes, no held object dropped, no double drop; closure panics additionally bound + nothing lost; then 6-20 further random operations with the same checks, then drop. Same under ASan and Miri (touching a freed bucket is a hard report). evaluations = injected panics that fired; distinct = (operation, class, index, state length, hasher, rebuilt?, post length).",
     "C17": "Fault enumeration: for each of the 7 iterator kinds, every length 0..=N and every next/next_back string of length <= len+1, the iterator is mem::forget-ed; afterwards the cache (if any) is observed (gate G1-G3), must not list any object the iterator handed out, is used by ~12 further operations with all transition oracles on, and is dropped; the ledger must show no double drop. Same under ASan (leak check off) and Miri (-Zmiri-ignore-leaks).",
-    "C18": "Auto-trait truth table read at run time: a trait probe (inherent associated const on Probe<T: Send> shadowing a blanket trait const) is instantiated for LruCache<K, V, S> with K, V, S ranging over {u8 (Send+Sync), Cell<u8> (Send only), MutexGuard<'static, u8> (Sync only), Rc<u8> (neither)} = 64 types x {Send, Sync}; every entry must equal 'all three are Send' / 'all three are Sync'. The probe is first checked on types with known auto traits. The positive direction is exercised: caches are moved to another thread, mutated there and moved back; &cache is shared by 3-4 reader threads natively and under Miri's race detector. NOT decided: the borrowing/lifetime sentence of C18 (a statement about programs the compiler rejects; no execution can witness it).",
+    "C18": "Auto-trait truth table read at run time: a trait probe (inherent associated const on Probe<T: Send> shadowing a blanket trait const) is instantiated for LruCache<K, V, S> with K, V, S ranging over {u8 (Send+Sync), Cell<u8> (Send only), MutexGuard<'static, u8> (Sync only), Rc<u8> (neither)} = 64 types x {Send, Sync}; every entry must equal 'all three are Send' / 'all three are Sync'. The probe is first checked on types with known auto traits. The positive direction is exercised: caches are moved to another thread, mutated there and moved back; &cache is shared by 3-4 reader threads natively and under Miri's race detector; a separate exercise program does the same with NON-'static parameters (keys, values and hasher borrowing from a local, scoped threads) — if it stops compiling while the rest of the harness builds, that is reported as a violation with the compiler's message. NOT decided: the borrowing/lifetime sentence of C18 (a statement about programs the compiler rejects; no execution can witness it).",
     "C19": "(a) MMU write trap: the boxed cache, its table, seal and all keys/values are built inside an mmap arena which is then mprotect-ed read-only; every shared-reference operation (peek/peek_entry/contains for every present and absent id in both key forms, peek_lru/mru, len/is_empty/current_size/max_size/capacity/hasher, iter/keys/values forward, backward and interleaved, Debug, clone + drop of the clone, the hook walk) runs on one thread and then on 4 threads at once; any store into the arena, even of the value already there, raises SIGSEGV -> WRITE-TRAP. (b) byte hash of the arena region and full observation before/after. (c) the same operations from 3 threads under Miri (happens-before race detector) and (d, thorough) ThreadSanitizer. Plus the fingerprint facet on every &self operation inside random histories. distinct = (length class, hasher, tombstones?, table full?, threads).",
     "C20": "Hash-call counter (owned + borrowed key forms) read around every API call: <= 2 + departures, + held entries only when the hook shows the table was re-allocated by an operation allowed to rebuild; == 0 for traversals, clear, drain, peek_lru/peek_mru. distinct = (operation, length class, #departures class, rebuilt?, #hashes).",
-    "C08": "Type matrix of 345 concrete nestings (115 hand-picked + 23 constructors x 10 inner types) of the supported constructors (leaves, String/OsString/CString/PathBuf, Vec, Box<sized/slice/str/CStr/Path>, arrays of length 0/1/3 incl. arrays of arrays, tuples of arity 1-10, Option, Result, Wrapping, all range types, Mutex, RwLock, BinaryHeap, HashMap, HashSet, references) with random spare capacity at every level. For each random value: mem_size == value_size + heap_size, value_size == size_of, heap_size == an independently written composition law (u128). For random vectors of each type: the four bulk helpers == element-wise sums over 9 iterator shapes (plain, rev, skip/take, step_by, index-mapped with repeats, empty, filtered, chained, take_while) - exact-size variants on the exact-size shapes; unsized elements ([String], str, Path, CStr) through references. Totality: 18 big inputs (10^6-10^7 elements, runs of zero-length arrays, ZSTs) each in its own process built at opt-level 0 and in release, on the main thread and on a default 2 MiB thread; verdict = exit status. distinct = (type, shape/helper, value class).",
+    "C08": "Type matrix of 345 concrete nestings (115 hand-picked + 23 constructors x 10 inner types) of the supported constructors (leaves, String/OsString/CString/PathBuf, Vec, Box<sized/slice/str/CStr/Path>, arrays of length 0/1/3 incl. arrays of arrays, tuples of arity 1-10, Option, Result, Wrapping, all range types, Mutex, RwLock, BinaryHeap, HashMap, HashSet, references) with random spare capacity at every level. For each random value: mem_size == value_size + heap_size, value_size == size_of, heap_size == an independently written composition law (u128). For random vectors of each type: the four bulk helpers == element-wise sums over 9 iterator shapes (plain, rev, skip/take, step_by, index-mapped with repeats, empty, filtered, chained, take_while) - exact-size variants on the exact-size shapes; unsized elements ([String], str, Path, CStr) through references; Mutex/RwLock measured while another thread holds the lock for a moment; user-defined leaves (a zero-sized type with non-zero heap_size, a type with a declared heap size). Totality: 18 big inputs (10^6-10^7 elements, runs of zero-length arrays, ZSTs) each in its own process built at opt-level 0 and in release, on the main thread and on a default 2 MiB thread; verdict = exit status. distinct = (type, shape/helper, value class).",
     "C09": "Same 345-type matrix; each value is built INSIDE an attribution scope of the harness' counting global allocator by a random plan of with_capacity / push / reserve / reserve_exact / shrink_to / shrink_to_fit / truncate / pop / into_boxed_* steps at every nesting level; heap_size() must equal the live bytes attributed to the value (exactly, for everything not containing a hash table); for values containing HashMap/HashSet: capacity x entry size + elements <= heap_size <= live bytes; references contribute 0 (their targets are allocated outside the scope). distinct = (type, holds memory?, exact?, size class).",
     "C10": "insert/try_insert with sizes aimed at both sides of every threshold; classification, payload, identity of the returned pair and 'nothing changed' computed from the pre-state. distinct = (insert|try_insert, which failure conditions hold at once, boundary hit, length class, cache exactly full?).",
     "C11": "mutate at every position with shrink / same / fits / needs k evictions / too large; closure-ran flag, forwarded token, order, recorded size (hook), evictions and error payload compared with the spec computed from the pre-state. distinct = (present?, size-change class, position, #evictions class, exact fit, length class).",
